@@ -658,11 +658,22 @@ template <typename F> static void facts()
             << " size=" << sizeof(Optional<T>) << " prefixed_offset=" << offsetof(Prefixed<T>, o) << "\n";
 }
 
+template <typename T> static void fact(const char *name)
+{
+  std::cout << name << " alignT=" << alignof(T) << " sizeT=" << sizeof(T) << " align=" << alignof(Optional<T>)
+            << " size=" << sizeof(Optional<T>) << " prefixed_offset=" << offsetof(Prefixed<T>, o) << "\n";
+}
+struct alignas(64) CacheLine { char c[64]; };
+struct Packed3 { char c[3]; };
+
 int main(int argc, char **argv)
 {
   std::string mode = argc > 1 ? argv[1] : "trk";
   if (mode == "facts") {
     facts<FamTrk>(); facts<FamStr>(); facts<FamVec>(); facts<FamOver>(); facts<FamInt>();
+    fact<char>("char"); fact<short>("short"); fact<double>("double"); fact<long double>("longdouble");
+    fact<void *>("ptr"); fact<vec3f>("vec3f"); fact<rkcommon::math::vec4f>("vec4f"); fact<CacheLine>("cacheline");
+    fact<Packed3>("packed3"); fact<Optional<double>>("optdouble");
     return 0;
   }
   std::string line;
